@@ -149,6 +149,8 @@ def _trace_cmds(c, thorough):
         "C09": [rnd],
     }[c.pid]
     variants = THOROUGH_TRACE_VARIANTS if thorough else QUICK_VARIANTS
+    if c.pid == "C09":
+        variants += ",mem-hc,mem-hc-cms-cmsv" if thorough else ",mem-hc"
     cmds = []
     for i, (mode, n, blocks) in enumerate(per):
         out = os.path.join(c.scratch, "trace-%s.ndjson" % mode)
@@ -304,7 +306,13 @@ def _run(c):
     reproduces, _ = _probe(c)
     sd = _spec_dir(c, fixed=not reproduces)
     variants = THOROUGH_VARIANTS if thorough else QUICK_VARIANTS
-    c.assume("height cache OFF (rootmulti.NewStore(db, false, ...)): C10 is checked by the hcache engine")
+    if c.pid == "C09":
+        # historical reads are what the height cache serves: the same behaviours also run on a node with the cache on
+        variants += ",mem-hc,mem-hc-cms-cmsv" if thorough else ",mem-hc-cmsv@2,mem-hc@2"
+        c.assume("height cache OFF except in the 'hc' variants of C09 (node under test: rootmulti.NewStore(db, true, ...); reference "
+                 "node: off); cache on/off equivalence of all reads as such is C10 (hcache engine)")
+    else:
+        c.assume("height cache OFF (rootmulti.NewStore(db, false, ...)): C10 is checked by the hcache engine")
     c.assume("hashes: the specification carries write histories (digests) instead of hashes and only states equalities; "
              "the harness / trace specification check that the real hashes are a function of the digest. Nothing is "
              "claimed about the hashes of different histories (collision resistance is assumed, not checked)")
